@@ -373,6 +373,25 @@ class Extractor:
                 out = out + OText.synthetic("\n") + ot + OText.synthetic("\n")
                 continue
             found = self.find(rel, sel, within=within)
+            if found and ent.get("capture"):
+                # T18: "capture": {"regex": r"...(group 1)...", "qual", "wrap_prefix", "wrap_suffix"}: the text matched by
+                # group 1 of the regex inside fn `sel` (exactly one match) is copied byte for byte into a synthetic fn.
+                cp = ent["capture"]
+                host = found[0]
+                ms = list(re.finditer(cp["regex"], txt[host.start:host.end], re.S))
+                if len(ms) != 1:
+                    raise Undecided("lost anchor: capture `%s` in `%s`: %d matches" % (cp["regex"], sel, len(ms)))
+                a0 = host.start + ms[0].start(1)
+                a1 = host.start + ms[0].end(1)
+                qual = cp["qual"]
+                self.functions.append(dict(name=qual, file=rel, line_start=self.line_of(txt, a0), line_end=self.line_of(txt, a1 - 1),
+                                           sha256=hashlib.sha256(txt[a0:a1].encode()).hexdigest()))
+                self.transforms.add("T18")
+                ot = OText.synthetic(cp["wrap_prefix"] + "\n") + OText.from_src(txt, a0, a1, fi) + OText.synthetic("\n" + cp["wrap_suffix"] + "\n")
+                ot = self.phase1(ot, strip_async, rewrites + ent.get("rewrites", []))
+                ot = self.phase2_fn(ot, qual)
+                out = out + OText.synthetic("\n") + ot + OText.synthetic("\n")
+                continue
             if found and ent.get("block"):
                 # T14: "block": {"from": <text of a line>, "to": <text of a later line>, "qual": name,
                 #                "wrap_prefix": "fn name(..) -> .. {", "wrap_suffix": "... }"}
